@@ -29,6 +29,16 @@ CLAIMED = {
         "str.strip is uninterpreted; click's option parsing and sys.exit are trusted. NOT covered yet: validation of "
         "declared/mandatory generator arguments and the exit-status paths of check/generate.",
         "DESIGN.md 5/C30", ""),
+    "C12": (
+        "Every __repr__ of the RREL classes (Parent, Navigation, Brackets, Dots, Sequence, ZeroOrMore, Path, "
+        "Expression) is proved equal to a spec printer written production by production from the RREL grammar "
+        "(flags printed whenever present; a fixed name quoted with the quote it does not contain; leading dots glued "
+        "to the first path element), for all field values. That the spec printer re-parses to the same tree is "
+        "validated with the real parser on every tree up to depth 2 (3 thorough) over all operators and flag sets: a "
+        "bounded stand-in, reported separately and never counted as proved.",
+        "Arpeggio runs the RREL grammar (T-ARP). str(x) of an RREL node is its __repr__; sep.join(map(str, L)) is "
+        "modelled as one function of (sep, contents of L). The parse(pp(t)) == t half is bounded, not proved.",
+        "DESIGN.md 5/C12", "spec printer + bounded round trip with the real parser"),
     "C32": (
         "Per-reference contract of the resolution loop body (a statement region of ReferenceResolver.resolve_one_step) "
         "proved for every metamodel provider table, every cross-ref and every provider behaviour: exactly one provider "
